@@ -78,7 +78,7 @@ func ruleLeaveComplete(r *Run) {
 		iHD := idxOfCall(path, modHD, 0)
 		hdOK := iHD >= 0
 		if hdOK {
-			hdOK = r.P.Canon(fn, path.Events[iHD].Recv) == "rangeval(recv.Modules)" && path.Events[iHD].Loop
+			hdOK = r.P.Canon(path.Events[iHD].Fn, path.Events[iHD].Recv) == "rangeval(recv.Modules)" && path.Events[iHD].Loop
 		}
 		// the path that iterates zero modules is the empty-module configuration; require the loop to exist
 		hasModLoop := false
@@ -95,8 +95,8 @@ func ruleLeaveComplete(r *Run) {
 		r.CheckT("E1", site+":modules-told", hasModLoop && hdOK, fn.Body.Pos(), path, "every loaded module's HandleDisconnect is called (range over the handler's Modules) [%s]", sig)
 		// subscriptions dropped
 		iUn := idxOfCall(path, unsub, 0)
-		unOK := iUn >= 0 && r.P.Canon(fn, path.Events[iUn].Call.Args[0]) == "recv.currentParticipant.ID" &&
-			r.P.Canon(fn, path.Events[iUn].Recv) == "recv.currentSession.entityComponents"
+		unOK := iUn >= 0 && r.P.Canon(path.Events[iUn].Fn, path.Events[iUn].Call.Args[0]) == "recv.currentParticipant.ID" &&
+			r.P.Canon(path.Events[iUn].Fn, path.Events[iUn].Recv) == "recv.currentSession.entityComponents"
 		r.CheckT("E1", site+":unsubscribe", unOK, fn.Body.Pos(), path, "the leaver's component-type subscriptions are dropped (UnsubscribeByParticipant(own id) on the own session's store)")
 		// entity loop: range over the leaver's own entity ids
 		hasEntLoop := false
@@ -145,8 +145,8 @@ func ruleLeaveComplete(r *Run) {
 			}
 			lookupArgOK := false
 			if k := idxOfCall(path, byID, i); k >= 0 && k < end {
-				lookupArgOK = r.P.Canon(fn, path.Events[k].Call.Args[0]) == "rangekey(recv.currentParticipant.entityIDs)" &&
-					r.P.Canon(fn, path.Events[k].Recv) == "recv.currentSession"
+				lookupArgOK = r.P.Canon(path.Events[k].Fn, path.Events[k].Call.Args[0]) == "rangekey(recv.currentParticipant.entityIDs)" &&
+					r.P.Canon(path.Events[k].Fn, path.Events[k].Recv) == "recv.currentSession"
 			}
 			r.CheckT("E1", site+":entity-loop:lookup", lookupArgOK, ev.Pos, path, "each of the leaver's entity ids is looked up in the session being left")
 			switch {
@@ -173,7 +173,7 @@ func ruleLeaveComplete(r *Run) {
 			}
 		}
 		iRmP := idxOfCall(path, rmPart, 0)
-		rmOK := iRmP >= 0 && r.P.Canon(fn, path.Events[iRmP].Call.Args[0]) == "recv.currentParticipant" && r.P.Canon(fn, path.Events[iRmP].Recv) == "recv.currentSession"
+		rmOK := iRmP >= 0 && r.P.Canon(path.Events[iRmP].Fn, path.Events[iRmP].Call.Args[0]) == "recv.currentParticipant" && r.P.Canon(path.Events[iRmP].Fn, path.Events[iRmP].Recv) == "recv.currentSession"
 		r.CheckT("E1", site+":remove-participant", rmOK, fn.Body.Pos(), path, "the leaver is removed from the session it was in")
 		stopNil := false
 		for i, ev := range path.Events {
@@ -202,7 +202,7 @@ func ruleLeaveComplete(r *Run) {
 		r.CheckT("E1", site+":count-after-remove", cntOK, fn.Body.Pos(), path, "the emptiness test follows the removal of the leaver")
 		switch empty {
 		case "zero":
-			okRm := iRmS > iCnt && r.P.Canon(fn, path.Events[iRmS].Call.Args[1]) == "recv.currentSession" && r.P.Canon(fn, path.Events[iRmS].Recv) == "recv.Sessions"
+			okRm := iRmS > iCnt && r.P.Canon(path.Events[iRmS].Fn, path.Events[iRmS].Call.Args[1]) == "recv.currentSession" && r.P.Canon(path.Events[iRmS].Fn, path.Events[iRmS].Recv) == "recv.Sessions"
 			r.CheckT("E1", site+":last-member-ends-session", okRm, fn.Body.Pos(), path, "when the session is empty it is removed from the registry")
 		case "nonzero":
 			r.CheckT("E1", site+":members-remain", iRmS < 0, fn.Body.Pos(), path, "a session with remaining members is not removed from the registry")
@@ -384,7 +384,7 @@ func ruleModuleCleanup(r *Run) {
 					}
 					if pe.Kind == EvCall && pe.Callee == rmFn.Obj {
 						removed = true
-						argOK = r.P.Canon(fn, pe.Call.Args[0]) == "rangekey(recv.currentParticipant.entityIDs)" && r.P.Canon(fn, pe.Recv) == "recv.state"
+						argOK = r.P.Canon(pe.Fn, pe.Call.Args[0]) == "rangekey(recv.currentParticipant.entityIDs)" && r.P.Canon(pe.Fn, pe.Recv) == "recv.state"
 					}
 				}
 				key := lookup + "/" + persist
@@ -672,7 +672,7 @@ func ruleDispatchTotal(r *Run) {
 				r.CheckT("A1", fn.Name+":modules-after-core", coreIdx < i, ev.Pos, path, "modules are consulted after the core handler")
 				r.CheckT("A1", fn.Name+":modules-joined", tested["p"] && tested["s"], ev.Pos, path, "modules are consulted only for a connection that is in a session (participant and session both non-nil)")
 				r.CheckT("A1", fn.Name+":modules-on-success", coreErr != "err", ev.Pos, path, "modules are not consulted when the core handler failed")
-				r.CheckT("A1", fn.Name+":modules-loop", r.P.Canon(fn, ev.Call.Args[1]) == "rangeval(recv.Handler.call:Handler.GetModules())", ev.Pos, path, "every loaded module is consulted (range over GetModules())")
+				r.CheckT("A1", fn.Name+":modules-loop", r.P.Canon(ev.Fn, ev.Call.Args[1]) == "rangeval(recv.Handler.call:Handler.GetModules())", ev.Pos, path, "every loaded module is consulted (range over GetModules())")
 			}
 		}
 	}
@@ -844,7 +844,7 @@ func (r *Run) returnsClosureResult(f *types.Func) bool {
 		for k := len(path.Events) - 1; k >= 0; k-- {
 			re := path.Events[k]
 			if re.Kind == EvReturn && re.Depth == 0 {
-				c := r.P.Canon(def, re.Results[len(re.Results)-1])
+				c := r.P.Canon(re.Fn, re.Results[len(re.Results)-1])
 				ok = strings.HasPrefix(c, "dyncall:param:#") && strings.HasSuffix(c, "()")
 				break
 			}
